@@ -62,6 +62,26 @@ class _StoreSplitAction(argparse.Action):
             setattr(namespace, self.dest, split_values)
 
 
+class _UndefineAction(argparse.Action):
+    """
+    A custom argparse.Action that removes the macro named by -U from the
+    definitions given earlier on the command line. A compiler processes -D
+    and -U in the order they are given.
+    """
+
+    def __call__(
+        self,
+        parser: argparse.ArgumentParser,
+        namespace: argparse.Namespace,
+        value: str,
+        option_string: str,
+    ):
+        defines = getattr(namespace, self.dest)
+        defines[:] = [
+            d for d in defines if re.split(r"[=(]", d, maxsplit=1)[0] != value
+        ]
+
+
 class _ExtendMatchAction(argparse.Action):
     """
     A custom argparse.Action that matches the value against a user-provided
@@ -363,6 +383,7 @@ class ArgumentParser:
             allow_abbrev=False,
         )
         parser.add_argument("-D", dest="defines", action="append")
+        parser.add_argument("-U", dest="defines", action=_UndefineAction)
         parser.add_argument("-I", dest="include_paths", action="append")
         parser.add_argument(
             "-isystem",
